@@ -452,3 +452,5 @@ def run(ck):
                     'lists) keep the ring intact and insert at the position asked for (shape analysis shared with '
                     'C04.9)', 'ABS', breaks='messages are reordered or lost inside a queue', floor=5)
         listshape.check(prog, r)
+        from rules.C06 import c06_10
+        c06_10(ck, prog, 'C05.9')
